@@ -374,11 +374,38 @@ def rule_search(prog, rep):
                                     "%s is started with the visited-set `%s`, which outlives the call: fragments marked `traversed, no cycle` for an earlier root are skipped for this root, but the search only reports cycles through its own root - a cycle first reached through an acyclic entry is never reported" % (f.name.split("::")[-1], a[:80]), c.loc())
 
 
+def rule_pushguard(prog, rep):
+    """C21.PUSHGUARD: the recursive validators bound their depth with a RecursionGuard: a set of
+    the names on the current path plus a limit.  `push` only counts a name that is not yet in the
+    set, so a walk that pushes a name already on its path neither reaches the limit nor stops: a
+    `lasso` (A -> B -> B) recurses until the stack overflows.  Every push is dominated by
+    `guard.contains(name) == false` on the same guard."""
+    from ..flow import facts_at
+    rep.floor("C21.PUSHGUARD", 4)
+    for f in sorted(prog.fns.values(), key=lambda g: g.name):
+        if f.crate != "apollo_compiler":
+            continue
+        for c in f.live_calls():
+            if not re.search(r"RecursionGuard(::<'_>|<'_>)?::push$", c.name):
+                continue
+            guard = f.sym(c.args[0])
+            ok = any(x[0] == "callbool" and re.search(r"RecursionGuard(::<'_>|<'_>)?::contains$", x[1]) and x[3] is False and f.sym(x[4].args[0]) == guard
+                     for x in facts_at(f, c.block))
+            rep.obligation(ok)
+            short = f.name.split("validation::")[-1]
+            if ok:
+                rep.instance("C21.PUSHGUARD", "%s: push only under !contains(name) on the same guard" % short)
+            else:
+                rep.finding("C21.PUSHGUARD", f.name, "push-seen",
+                            "%s pushes a name onto its RecursionGuard without having tested that the name is not already on the path: re-pushing a seen name is not counted against the limit, so a reference chain that leads into a cycle it is not part of recurses without bound (stack overflow)" % short, c.loc())
+
+
 def run(prog, rep):
     rule_cut(prog, rep)
     rule_limit(prog, rep)
     rule_sort(prog, rep)
     rule_search(prog, rep)
+    rule_pushguard(prog, rep)
     # serialization must not panic either: the quoted-string writer slices one byte per escaped
     # character, so the set of characters it selects for escaping has to be ASCII (C09.ESCINV)
     from .C09 import rule_escinv
